@@ -111,7 +111,7 @@ Section Loaded.
       (forall r, In r (td_rows td0) -> length r = length (td_cols td0)) /\
       (forall m, is_idlist_name m = true -> ~ In m (td_cols td0)).
   Proof.
-    intros Hfd. destruct (load_loaded _ _ _ _ _ _ _ Hload) as (tds & Htds & Hbk & _).
+    intros Hfd. destruct (load_loaded _ _ _ _ _ _ _ Hload) as (tds & Htds & Hbk).
     exists tds. subst bk. unfold find_data in Hfd; cbn [b_tables] in Hfd.
     rewrite with_idlists_eq, (find_map_tbl _ _ _ (idl_fun_name tds)) in Hfd.
     destruct (find _ tds) as [td0|] eqn:E; cbn [option_map] in Hfd; [|discriminate].
